@@ -29,7 +29,7 @@ ASSUMPTIONS = [
 def run_shard(ctx):
     specs = corpus.table_specs()
     M = make_machine(ctx, "C01", specs)
-    ctx.run_machine(M, ctx.budget(16 * 100, 16 * 600), 25 if not ctx.thorough else 50, replay=replay_raise)
+    ctx.run_machine(M, ctx.budget(16 * 100, 16 * 350), 25 if not ctx.thorough else 50, replay=replay_raise)
 
 
 def replay_raise(case, ctx):
